@@ -1,5 +1,5 @@
 CONSTANTS
-  Hi = 5
+  Hi = 4
   MaxKnots = 3
 INIT Init
 NEXT Next
